@@ -16,7 +16,7 @@ CLAIMED = {
 
 CLAIMED["C07"] = dict(
     category="proof",
-    text="Theorems in coq/Props/Properties_C07.v about an executable Gallina model of lib/io.c (sinks, multiplexer) and of the staging loops of lib/b64.c: the streaming base64url stages equal the one-shot codec for EVERY split into feeds (induction over chunk lists, no bound); the chunking theorem C07_chunking for every chain of lawful stages, sinks and arbitrarily nested multiplexers (structural induction on the chain); failure propagation; buffer capacity invariant; any/all multiplexer verdicts and dropped branches. OpenSSL/zlib-backed stages enter through the stream law (accumulate-then-emit stages proved outright; incremental ones under the prefix-extension hypothesis). Tie: extracted model vs chains built from the public constructors plus a fault-injecting sink, all compositions of short inputs, boundary lengths, every fault position. Also exercised: per-branch metamorphic oracle (a branch inside a multiplexer delivers what it delivers alone) and verdict oracle (any = OR, all = AND); deflate / inflate stages (implementation only): chunkings, exact buffer capacity behind the compressor, faults at feed and done. The streaming content encryptor jose_jwe_enc_io (with and without the deflate stage) is fed the plaintext in chunkings around the block sizes 16/48/64/4096 and its product decrypted by jose and by the Gallina decryptor.",
+    text="Theorems in coq/Props/Properties_C07.v about an executable Gallina model of lib/io.c (sinks, multiplexer) and of the staging loops of lib/b64.c: the streaming base64url stages equal the one-shot codec for EVERY split into feeds (induction over chunk lists, no bound); the chunking theorem C07_chunking for every chain of lawful stages, sinks and arbitrarily nested multiplexers (structural induction on the chain); failure propagation; buffer capacity invariant; any/all multiplexer verdicts and dropped branches. OpenSSL/zlib-backed stages enter through the stream law (accumulate-then-emit stages proved outright; incremental ones under the prefix-extension hypothesis). Tie: extracted model vs chains built from the public constructors plus a fault-injecting sink, all compositions of short inputs, boundary lengths, every fault position. Also exercised: per-branch metamorphic oracle (a branch inside a multiplexer delivers what it delivers alone) and verdict oracle (any = OR, all = AND); deflate / inflate stages (implementation only): chunkings, exact buffer capacity behind the compressor, faults at feed and done. The streaming content encryptor jose_jwe_enc_io (with and without the deflate stage) is fed the plaintext in chunkings around the block sizes 16/48/64/4096 and its product decrypted by jose and by the Gallina decryptor. What a multiplexer does AFTER a branch has failed (all-mode stays failed, a released branch receives nothing further, any-mode goes on with the rest) is proved on the per-call model coq/Io/Step.v (C07_step_*, incl. agreement with the whole-run model up to the first refusal) and compared with the code by chainx sessions that feed on after a refusal.",
     design_ref="DESIGN.md section 3 C07",
     note="Coq kernel; no axioms; hypothesis of C07_prefix_stream (output of a cipher/deflate stage for a longer input extends that for a prefix) is a property of OpenSSL/zlib, not proved; the model's list-at-once semantics is tied to the per-call C code by the correspondence only.",
     technique="Coq proof (induction on chunk lists and on chain structure) + extracted-model correspondence with fault injection",
@@ -32,7 +32,7 @@ CLAIMED["C16"] = dict(
 
 CLAIMED["C05"] = dict(
     category="proof",
-    text="Theorems in coq/Props/Properties_C05.v: jose_jwk_prm (model over the operation table regenerated from the running registry) EQUALS the RFC 7517 grant formula of the property for every JSON object and operation name (C05_prm_spec; the table itself is proved to be RFC 7517's eight operations); at sign, verify, unwrap, content encryption, content decryption and exchange the decision models refuse EVERY pair of different strings (header/peer alg vs key alg), independent of the registered algorithms and of lexicographic order; an operation that proceeds was granted. Tie: the decision models run with ideal primitives built from the regenerated registry vs the real entry points on complete grids (all ordered name pairs incl. foreign names; all 2^8 key_ops subsets x use x op x req), objects produced by the library with keys valid for the header algorithm so that a skipped comparison shows as acceptance. Also exercised: use/key_ops enforced at every entry point (sign, verify, wrap, unwrap for five families, content encryption, both keys of ECDH and ECMR) over 10 metadata shapes; content decryption with enc in the unauthenticated shared header only.",
+    text="Theorems in coq/Props/Properties_C05.v: jose_jwk_prm (model over the operation table regenerated from the running registry) EQUALS the RFC 7517 grant formula of the property for every JSON object and operation name (C05_prm_spec; the table itself is proved to be RFC 7517's eight operations); at sign, verify, unwrap, content encryption, content decryption and exchange the decision models refuse EVERY pair of different strings (header/peer alg vs key alg), independent of the registered algorithms and of lexicographic order; an operation that proceeds was granted. Tie: the decision models run with ideal primitives built from the regenerated registry vs the real entry points on complete grids (all ordered name pairs incl. foreign names; all 2^8 key_ops subsets x use x op x req), objects produced by the library with keys valid for the header algorithm so that a skipped comparison shows as acceptance. Also exercised: use/key_ops enforced at every entry point (sign, verify, wrap, unwrap for five families, content encryption, both keys of ECDH and ECMR) over 10 metadata shapes; content decryption with enc in the unauthenticated shared header only. The operation every registered algorithm asks for is compared with a documented table (independent of the registry of the code under test), and every symmetric key-wrapping algorithm is in the entry-point grid.",
     design_ref="DESIGN.md section 3 C05",
     note="Coq kernel; no axioms; the models of the entry points' decision prefixes are hand-written and tied by correspondence; jose_jwe_enc_jwk (wrapping) is not in the property's list.",
     technique="Coq proof (boolean case analysis over the generated table; unfolding of decision prefixes) + exhaustive-grid correspondence",
@@ -56,7 +56,7 @@ CLAIMED["C11"] = dict(
 
 CLAIMED["C12"] = dict(
     category="proof",
-    text="Theorems in coq/Props/Properties_C12.v about Gallina models of jwk_str/jose_jwk_thp/_thp_buf/jose_jwk_eql over the regenerated type table: the digest input holds exactly kty and the RFC 7638 required members (the generated lists are proved equal to RFC 7638's), ignores all other members, is the same for a key and its public half, string and buffer forms agree and the size query is the digest length; equality is exactly 'type known, kty and required members present and json_equal', is reflexive/symmetric/transitive (json_equal itself is proved an equivalence on duplicate-free values by induction on JSON trees), and a key without thumbprint equals nothing. Tie: extracted model (with Gallina SHA-1/2) vs the real functions on generated keys incl. non-ASCII/escaped/non-string members, all hash names, buffer sizes 0..65, pairs and triples; Python hashlib oracle. Also exercised (implementation only): JWK -> EVP_PKEY / EC_KEY / RSA -> JWK round trips of python-built EC keys whose x / y / d start with a zero octet on four curves and of RSA keys: members, thumbprint and equality preserved; pairs that differ only in the letter case of kty.",
+    text="Theorems in coq/Props/Properties_C12.v about Gallina models of jwk_str/jose_jwk_thp/_thp_buf/jose_jwk_eql over the regenerated type table: the digest input holds exactly kty and the RFC 7638 required members (the generated lists are proved equal to RFC 7638's), ignores all other members, is the same for a key and its public half, string and buffer forms agree and the size query is the digest length; equality is exactly 'type known, kty and required members present and json_equal', is reflexive/symmetric/transitive (json_equal itself is proved an equivalence on duplicate-free values by induction on JSON trees), and a key without thumbprint equals nothing. Tie: extracted model (with Gallina SHA-1/2) vs the real functions on generated keys incl. non-ASCII/escaped/non-string members, all hash names, buffer sizes 0..65, pairs and triples; Python hashlib oracle. Also exercised (implementation only): JWK -> EVP_PKEY / EC_KEY / RSA -> JWK round trips of python-built EC keys whose x / y / d start with a zero octet on four curves and of RSA keys: members, thumbprint and equality preserved; pairs that differ only in the letter case of kty. The conversions to and from OpenSSL key objects are modelled in coq/Jwk/Conv.v: canonical RSA / EC / oct keys come back with every key member equal, hence same thumbprint and equality (C12_conv_*_roundtrip); incomplete factor / CRT groups are refused, never dropped (C12_conv_never_drops); the boundaries (leading zero octets renormalised, coordinates >= p reduced, oth dropped, empty k refused) are stated as theorems, four of them as _refuted readings; the osslrt lines of the harness are compared with the model.",
     design_ref="DESIGN.md section 3 C12",
     note="Coq kernel; no axioms; NOT proved: injectivity of the JSON dump and collision-freeness of SHA (so 'equal iff same thumbprint' is shown as 'decided by the same members'); jose/openssl.h conversions are checked on the implementation only.",
     technique="Coq proof (induction on JSON trees, table lemmas by vm_compute) + extracted-model correspondence with an independent hashlib oracle",
@@ -104,7 +104,7 @@ CLAIMED["C09"] = dict(
 
 CLAIMED["C10"] = dict(
     category="proof",
-    text="Theorems in coq/Props/Properties_C10.v: whatever passes the key tests that the models of sign/verify/encrypt/decrypt/wrap/unwrap/exchange perform before any cryptography satisfies the RFC 7518 requirement -- HMAC keys decode to between hash-size and KEYMAX octets; content keys are exactly 16/24/32 (GCM) or 32/48/64 (CBC-HMAC) octets and the content algorithms only ever run with a key of exactly that length; key-wrapping keys exactly 16/24/32; PBES2 passwords and wrapped keys bounded by KEYMAX; RSA signature keys have a modulus of at least 256 octets on both sides; an imported EC key names one of the four curves, its (reduced) coordinates satisfy the curve equation and a present d is in [1,n) with dG = (x,y); ECDH needs two valid keys and a private value. Tie: every length 0..1100 (+2048, 4096) of HMAC keys offered to signing and to verification of a MAC made with that very key; CEK/KEK length grids on the producing side; tokens made with the exact key consumed with every truncation/extension; RSA moduli 512..2056 bits (committed corpus) for signing and for verification of valid signatures made with python; per curve ~30 EC key variants (off-curve, swapped, other curve, wrong width, x+p, d+1, d=0, d=n, d+n, unknown crv, malformed) through sign, verify, ECDH-ES wrap/unwrap, exchange; symmetric model extracted, public-key model over BigZ in coqc; independent python arithmetic as oracle.",
+    text="Theorems in coq/Props/Properties_C10.v: whatever passes the key tests that the models of sign/verify/encrypt/decrypt/wrap/unwrap/exchange perform before any cryptography satisfies the RFC 7518 requirement -- HMAC keys decode to between hash-size and KEYMAX octets; content keys are exactly 16/24/32 (GCM) or 32/48/64 (CBC-HMAC) octets and the content algorithms only ever run with a key of exactly that length; key-wrapping keys exactly 16/24/32; PBES2 passwords and wrapped keys bounded by KEYMAX; RSA signature keys have a modulus of at least 256 octets on both sides; an imported EC key names one of the four curves, its (reduced) coordinates satisfy the curve equation and a present d is in [1,n) with dG = (x,y); ECDH needs two valid keys and a private value. Tie: every length 0..1100 (+2048, 4096) of HMAC keys offered to signing and to verification of a MAC made with that very key; CEK/KEK length grids on the producing side; tokens made with the exact key consumed with every truncation/extension; RSA moduli 512..2056 bits (committed corpus) for signing and for verification of valid signatures made with python; per curve ~30 EC key variants (off-curve, swapped, other curve, wrong width, x+p, d+1, d=0, d=n, d+n, unknown crv, malformed) through sign, verify, ECDH-ES wrap/unwrap, exchange; symmetric model extracted, public-key model over BigZ in coqc; independent python arithmetic as oracle. ECDH-ES direct agreement: unwrapping with every private-key variant and with the token's epk replaced by every public-key variant (no wrapped key whose integrity check could hide a wrong derivation).",
     design_ref="DESIGN.md section 3 C10",
     note="Coq kernel + vm_compute; Print Assumptions lists only the Int63 primitives of Bignums for the theorems that mention the BigZ instance. EC_KEY_check_key and RSA import are modelled (see ASSUMPTIONS in the evidence); OpenSSL reduces supplied coordinates modulo p, so x+p denotes the same (valid) point and is accepted -- modelled as such.",
     technique="Coq proof on key-acceptance predicates shared with the operation models + length-grid / invalid-key correspondence (extracted model, BigZ via coqc)",
@@ -160,7 +160,7 @@ CLAIMED["C02"] = dict(
 
 CLAIMED["C04"] = dict(
     category="proof",
-    text="Theorems in coq/Props/Properties_C04.v: the content layer round trip dec(enc(pt)) = pt for AES-GCM and AES-CBC-HMAC models of lib/openssl/aesgcm.c / aescbch.c, proved from the AEAD law of the primitive (what enc stores in iv/tag/ciphertext is what dec reads, over the same AAD input); the product of jose_jwe_enc_cek is the RFC 7516 construction (enc recorded, protected encoded once, compress-before-encrypt exactly when zip is protected, seal, base64url); decryption is its mirror. Tie, both directions: every recipient key of jose-produced tokens (all key-management x content-encryption x zip x aad, plaintext lengths 0..4352 [70000 thorough], parameters in protected or split headers) decrypts in jose AND on the independent model (symmetric and PBES2 extracted; ECDH-ES over BigZ and RSA with a checked witness inside coqc); ciphertext and tag bit-identical to the model's re-encryption under the same CEK and IV; model-produced tokens (incl. stored-block DEFLATE) decrypt in jose; all RFC 7520 section 5 examples; two-recipient tokens, foreign keys, re-wrapping a recovered CEK to a third recipient. Also exercised: tokens without protected header in both directions; ECDH-ES tokens on P-521 chosen so that half of the BigZ-checked sample has a shared secret with a leading zero octet; one call with a key set (array / JWKSet) x recipient template forms, and with the algorithm named once in the protected / shared header.",
+    text="Theorems in coq/Props/Properties_C04.v: the content layer round trip dec(enc(pt)) = pt for AES-GCM and AES-CBC-HMAC models of lib/openssl/aesgcm.c / aescbch.c, proved from the AEAD law of the primitive (what enc stores in iv/tag/ciphertext is what dec reads, over the same AAD input); the product of jose_jwe_enc_cek is the RFC 7516 construction (enc recorded, protected encoded once, compress-before-encrypt exactly when zip is protected, seal, base64url); decryption is its mirror. Tie, both directions: every recipient key of jose-produced tokens (all key-management x content-encryption x zip x aad, plaintext lengths 0..4352 [70000 thorough], parameters in protected or split headers) decrypts in jose AND on the independent model (symmetric and PBES2 extracted; ECDH-ES over BigZ and RSA with a checked witness inside coqc); ciphertext and tag bit-identical to the model's re-encryption under the same CEK and IV; model-produced tokens (incl. stored-block DEFLATE) decrypt in jose; all RFC 7520 section 5 examples; two-recipient tokens, foreign keys, re-wrapping a recovered CEK to a third recipient. Also exercised: tokens without protected header in both directions; ECDH-ES tokens on P-521 chosen so that half of the BigZ-checked sample has a shared secret with a leading zero octet; one call with a key set (array / JWKSet) x recipient template forms, and with the algorithm named once in the protected / shared header. The content key of ECDH-ES direct agreement is compared with a python Concat KDF for apu / apv of 0..300 octets; PBES2 with p2c in each header position.",
     design_ref="DESIGN.md section 3 C03/C04",
     note="Coq kernel; no axioms in the theorems; AEAD / key-wrap laws are hypotheses (validated, not proved); Int63 primitives only inside the BigZ evaluation.",
     technique="Coq proof from primitive laws + bit-exact and cross-decryption correspondence with independent Gallina primitives",
